@@ -222,7 +222,8 @@ def rule_pair(P, C):
                                 bad.append("the reader has room (%d < %d) but nothing is moved: %s" % (dstlen, high, moves))
                         wantm = moves or (high and not ignore and dstlen >= high)
                         fr = [x for x in ops if x[0] in ("unfreeze", "freeze")]
-                        if fr[:2] != [("unfreeze", 11, 1), ("unfreeze", 21, 0)] or fr[-2:] != [("freeze", 11, 1), ("freeze", 21, 0)] or len(fr) != 4:
+                        # both buffers are opened before anything moves and closed again afterwards; in which order the two are opened / closed is immaterial
+                        if set(fr[:2]) != {("unfreeze", 11, 1), ("unfreeze", 21, 0)} or set(fr[-2:]) != {("freeze", 11, 1), ("freeze", 21, 0)} or len(fr) != 4:
                             bad.append("freeze protocol %s" % fr)
                         if moves:
                             tr = [x for x in ops if x[0] == "trigger"]
